@@ -10,6 +10,7 @@ import (
 	"encoding/json"
 	"fmt"
 	"os"
+	"runtime/debug"
 
 	"verif/h"
 	"verif/sm"
@@ -24,6 +25,9 @@ type stepOut struct {
 }
 
 func run(p sm.Program) (out []stepOut, err string) {
+	// a kernel that reads or writes outside its vectors may hit unmapped memory: report that as the program's
+	// outcome (a panic the other builds do not show) instead of dying
+	debug.SetPanicOnFault(true)
 	defer func() {
 		if r := recover(); r != nil {
 			err = fmt.Sprint("executor: ", r)
